@@ -232,7 +232,9 @@ def generate(spec):
     if rng.random() < 0.12:
         # the user function behind c3 is registered AGAIN under its name with another body (a notebook cell run again): whether the
         # new body takes effect or the first registration stands is not prescribed - a mixture of the two is excluded
-        ops.insert(rng.randint(1, len(ops)), {"op": "redefine_function"})
+        pos_ = rng.randint(1, len(ops))
+        ops.insert(pos_, {"op": "redefine_function"})
+        ops.insert(pos_, {"op": "evaluate", "elem": "c3", "t_index": rng.choice([0, 1, 2])})     # (c3 has been read for SOME time before)
     if rng.random() < 0.15:
         # the scenario's time step is refined (or coarsened) somewhere in the history
         ops.insert(rng.randint(1, len(ops)), {"op": "change_dt", "dt": rng.choice([x for x in (1.0, 0.5, 0.25) if x != dt])})
